@@ -129,6 +129,9 @@ var registry = map[string]*Check{}
 
 func Register(c *Check) { registry[c.ID] = c }
 
+// Lookup returns a registered check (nil if unknown); used to extend a check with more phases.
+func Lookup(id string) *Check { return registry[id] }
+
 // ---- per-execution reporting used by harness bodies -------------------------
 
 // Obs carries the per-execution sinks; bodies get it through Cur.
